@@ -232,19 +232,21 @@ def channel(prop, sched, res, k, exp, got):
         return prop == "C14"
     props = set()
     b = st["before"]
-    if exp[5] != got[5]:
+    d_state, d_pend, d_out, d_ch = exp[0] != got[0], exp[1:4] != got[1:4], exp[4] != got[4], exp[5] != got[5]
+    startup = ("Connect", "Alive", "Subscribe", "Wait", "Init")
+    handled = st.get("handled") is not None
+    if d_ch:
         props.add("C14")
-    if exp[0] != got[0] and (b["state"] in ("Connect", "Alive", "Subscribe", "Wait", "Init") or 0 in (exp[0], got[0])):
+    if d_state and (b["state"] in startup or 0 in (exp[0], got[0])):
         props.add("C13")
-    if b["state"] == "Multipart" or sched["steps"][k].get("api") == "dump":
+    if [o for o in (exp[4] + got[4]) if o and (o[0] == 0 or (o[0] == 1 and o[3] == 1))] and d_out:
+        props.add("C13")
+    if (d_pend or d_out or d_state) and (b["state"] == "Multipart" or sched["steps"][k].get("api") == "dump"):
         props.add("C07" if b["resp"] else "C10")
-    if st.get("handled") is not None:
+    if handled and (d_out or d_pend or (d_state and b["state"] not in startup)):
         props.add("C07")
         if st["handled"].get("payload"):
             props.add("C14")
-    alive = [o for o in (exp[4] + got[4]) if o and (o[0] == 0 or (o[0] == 1 and o[3] == 1))]
-    if alive:
-        props.add("C13")
     return prop in props if props else True
 
 
